@@ -131,8 +131,12 @@ def methodName : OpKind → String
   | .version => "version"
   | .stats => "get_statistics"
 
-/-- further methods of the table with the data behaviour of a modelled one -/
-def aliases : List (String × OpKind) := [("get_rules_snapshot", .getRules)]
+/-- further methods of the table that read the components a modelled one reads: `get_rules_snapshot` is the textual
+twin of `get_rules`; `clone` copies the rules vector under ONE read guard on `rules` (the re-adding goes to the locks of
+the NEW object, which no other thread can see yet) — the footprint of `get_rules`; `export_to_grl` renders the rules
+vector and the version under a read guard on `rules` and a temporary one on `version` — the footprint of `get_statistics` -/
+def aliases : List (String × OpKind) :=
+  [("get_rules_snapshot", .getRules), ("clone", .getRules), ("export_to_grl", .stats)]
 
 /-- a row may be read as "acquire everything (in the listed order), then the body, then release":
 it takes its locks itself, drops nothing early, and only its LAST acquisition may be a temporary
